@@ -17,6 +17,11 @@ CHECKS = {
    text="The write protocol is model checked exhaustively (atomic variant satisfies, pre-fix variant refuted); real evo processes are run with their FS primitives on ~/.evo gated by the harness: killed at every step of init/upgrade/reset/set/merge followed by fresh starts, and interleaved according to schedules TLC simulates; the bytes of settings.json are classified after every primitive and judged by the TLA+ property; the primitive sequences are validated against the model.",
    note="kill = between two Python-level FS primitives; close of a buffered document modelled as two partial writes; exhaustive interleaving claim rests on TLC(M) + conformance(code ~ M)",
    ref="5 C19"),
+ "C17": dict(
+   technique="TLA+ model Overwrite.tla (TLC enumerates output site x path kind x confirmation x existing targets x answers, checks M => P) + execution of every case on the real writers / in-process CLIs with input() patched + TLC validation of the recorded file/prompt observations against OverwriteProps.tla",
+   text="The configuration space of the property is finite; TLC enumerates it from the model of the confirmation protocol and every behaviourally distinct case is executed on the real code in a scratch directory (files hashed before/after, prompts recorded with the set of targets already changed, new files re-read with the matching reader); the TLA+ property judges each observation. The thorough tier covers every writer and every output option of evo_ape/rpe/traj/res/config generate.",
+   note="prompts attributed to targets via evo's own 'exists, overwrite?' log record (fallback: order); quick tier: all 7 library sites + 6 CLI sites; ROS bag outputs (timestamp-named, never pre-existing) not covered",
+   ref="5 C17"),
 }
 
 
